@@ -38,7 +38,18 @@ impl std::ops::Mul for &Primitive {
         /// `str::repeat` panics when the result cannot be represented: check first.
         fn repeat_str(original: &str, times: usize) -> Result<String> {
             match original.len().checked_mul(times) {
-                Some(new_size) if new_size <= isize::MAX as usize => Ok(original.repeat(times)),
+                Some(0) => Ok(String::new()),
+                Some(new_size) if new_size <= isize::MAX as usize => {
+                    // `str::repeat` aborts the process when the allocation fails: reserve first
+                    let mut result = String::new();
+                    if result.try_reserve_exact(new_size).is_err() {
+                        bail!("new size is too large ({new_size} bytes could not be allocated)")
+                    }
+                    for _ in 0..times {
+                        result.push_str(original);
+                    }
+                    Ok(result)
+                }
                 _ => bail!("new size is too large"),
             }
         }
